@@ -38,6 +38,7 @@ class ClassSpec:
     abstract: bool
     parent: int | None
     fields: list[tuple[str, Any]] = field(default_factory=list)
+    weight: float | None = None   # @weight(w) decorator (does not influence the analysis)
 
 
 @dataclass
@@ -218,6 +219,9 @@ def build(spec: Spec) -> Built:
         cls = type(name, (base,), {"__module__": __name__, "__qualname__": f"{name}_{uid}"})
         if c.abstract and c.parent is not None:
             cls = abstract(cls)
+        if c.weight is not None:
+            from geneticengine.grammar.decorators import weight as weight_decorator
+            cls = weight_decorator(c.weight)(cls)
         classes.append(cls)
     for i, c in enumerate(spec.classes):
         if c.abstract:
@@ -567,3 +571,19 @@ def ty_of_py(t, b: Built):
     if o is Union:
         return ("union",) + tuple(ty_of_py(a, b) for a in t.__args__)
     raise ValueError(f"unknown key type {t!r}")
+
+
+def concrete_recursive_start(spec: Spec, rng) -> bool:
+    """Make the start symbol a CONCRETE production that also occurs below the root (e.g. start =
+    Add where Expr -> Add(l: Expr, r: Expr) | ...): then tree crossover finds donor subtrees.
+    Returns False when the spec has no such production."""
+    cands = []
+    for i, c in enumerate(spec.classes):
+        if c.abstract or c.parent is None:
+            continue
+        if any(isinstance(ft, tuple) and ft[0] == "cls" and ft[1] == c.parent for _, ft in c.fields):
+            cands.append(i)
+    if not cands:
+        return False
+    spec.start = rng.choice(cands)
+    return True
